@@ -180,8 +180,10 @@ func (a *App) indexFile(ctx context.Context, upload *db.Upload, p io.Reader, met
 		start := time.Now()
 		if err != nil {
 			fw.CloseWithError(err)
-		} else {
-			err = fw.Close()
+		} else if err = fw.Close(); err != nil {
+			// The file may have reached the store even though
+			// closing it failed; try to remove it.
+			fw.CloseWithError(err)
 		}
 		infof(ctx, "Close(%q) took %.2f seconds", path, time.Since(start).Seconds())
 	}()
